@@ -21,6 +21,9 @@ type Runner struct {
 	Twice bool // recover every image twice (C04 idempotence)
 	// ReadBack after every mutating call.
 	ReadEvery bool
+	// Probe replaces the full read-back after every write by Count + Get of the written key.
+	Probe     bool
+	FullEvery int
 	// OnlyClosed examines fault images only between the return of Close and the end of the next Open (C09).
 	OnlyClosed bool
 	closedWin  bool
@@ -45,22 +48,40 @@ type Runner struct {
 }
 
 // NewRunner prepares a runner for one program.
-func NewRunner(rec *Rec, p *Program, mode string, seed int64, depth int, twice bool, plimit int) *Runner {
-	r := &Runner{Mode: mode, Rng: rand.New(rand.NewSource(seed)), Dir: "db", seen: map[[3]uint64]bool{}, PowerLimit: plimit,
-		Depth: depth, Twice: twice}
+func NewRunner(rec *Rec, p *Program, rp RunParams) *Runner {
+	mode, seed := rp.Mode, rp.Seed
+	if rp.PLimit == 0 {
+		rp.PLimit = 48
+	}
+	if rp.HashSeed == 0 {
+		rp.HashSeed = CurrentHashSeed()
+	}
+	r := &Runner{Mode: mode, Rng: rand.New(rand.NewSource(seed)), Dir: "db", seen: map[[3]uint64]bool{}, PowerLimit: rp.PLimit,
+		Depth: rp.Depth, Twice: rp.Twice, ReadEvery: true, Probe: rp.Probe, FullEvery: rp.FullEvery, OnlyClosed: rp.OnlyClosed}
 	cfg := p.Cfg
 	switch cfg.FS {
 	case "", "crashfs":
 		cfg.FS = "crashfs"
 		r.FS = crashfs.New()
-		r.S = NewSess(rec, cfg, r.FS, r.Dir, p.ID, Ev{"prog": p, "run": Ev{"cmd": "fault", "mode": mode, "seed": seed, "depth": depth, "twice": twice, "plimit": plimit}})
-		_ = 0
+		r.S = NewSess(rec, cfg, r.FS, r.Dir, p.ID, Ev{"prog": p, "run": rp})
 		if mode != "seq" {
 			r.FS.Hook = r.hook
 		}
 	default:
 		panic("NewRunner: use NewRunnerOn for real file systems")
 	}
+	return r
+}
+
+// NewRunnerOn prepares a sequential runner on one of pogreb's own file systems.
+func NewRunnerOn(rec *Rec, p *Program, dir string, rp RunParams) *Runner {
+	if rp.HashSeed == 0 {
+		rp.HashSeed = CurrentHashSeed()
+	}
+	rp.Mode = "seq"
+	r := &Runner{Mode: "seq", Rng: rand.New(rand.NewSource(rp.Seed)), Dir: dir, seen: map[[3]uint64]bool{},
+		ReadEvery: true, Probe: rp.Probe, FullEvery: rp.FullEvery}
+	r.S = NewSess(rec, p.Cfg, RootFS(p.Cfg.FS), dir, p.ID, Ev{"prog": p, "run": rp})
 	return r
 }
 
@@ -383,8 +404,20 @@ func (r *Runner) Run(p *Program) error {
 		}
 		r.between()
 		if r.ReadEvery && isMutating(o.Op) {
-			r.S.ReadAll()
+			if r.Probe && (o.Op == "put" || o.Op == "del") {
+				// cheap probes after every write, a full read-back every FullEvery operations
+				r.S.Do(Op{Op: "count"})
+				r.S.Do(Op{Op: "get", K: o.K, KL: o.KL})
+				if r.FullEvery > 0 && r.Ops%r.FullEvery == 0 {
+					r.S.ReadAll()
+				}
+			} else {
+				r.S.ReadAll()
+			}
 		}
+	}
+	if r.Probe {
+		r.S.ReadAll()
 	}
 	return nil
 }
